@@ -33,16 +33,36 @@ def _cls_of(expr, repo):
     return [s] if repo.has_cls(s) else []
 
 
-def _isinstance_test(test):
-    """-> (negated, subject expr, class expr) or None"""
+def _isinstance_test(test, fn=None):
+    """-> (negated, subject expr, class expr) or None.  Also recognised:
+    `isinstance(x, A) or isinstance(x, B)` (= isinstance(x, (A, B))) and a
+    local that was bound once to such a test."""
     neg = False
     t = test
     if isinstance(t, ast.UnaryOp) and isinstance(t.op, ast.Not):
         neg = True
         t = t.operand
+    if isinstance(t, ast.Name) and fn is not None:
+        defs = [a for a in ast.walk(fn) if isinstance(a, ast.Assign)
+                and len(a.targets) == 1 and isinstance(a.targets[0], ast.Name)
+                and a.targets[0].id == t.id]
+        if len(defs) == 1:
+            t = defs[0].value
+            if isinstance(t, ast.UnaryOp) and isinstance(t.op, ast.Not):
+                neg = not neg
+                t = t.operand
     if isinstance(t, ast.Call) and isinstance(t.func, ast.Name) \
             and t.func.id == 'isinstance' and len(t.args) == 2:
         return neg, t.args[0], t.args[1]
+    if isinstance(t, ast.BoolOp) and isinstance(t.op, ast.Or):
+        parts = [_isinstance_test(v) for v in t.values]
+        if all(p_ is not None and not p_[0] for p_ in parts) and len(
+                {U(p_[1]) for p_ in parts}) == 1:
+            elts = []
+            for p_ in parts:
+                elts += list(p_[2].elts) if isinstance(
+                    p_[2], ast.Tuple) else [p_[2]]
+            return neg, parts[0][1], ast.Tuple(elts=elts, ctx=ast.Load())
     return None
 
 
@@ -82,7 +102,7 @@ class Types:
             if isinstance(n, ast.For) and isinstance(n.target, ast.Name):
                 loops[n.target.id] = n.iter
             if isinstance(n, ast.If):
-                it = _isinstance_test(n.test)
+                it = _isinstance_test(n.test, fn)
                 if it and _raises(n.body):
                     neg, subj, cexpr = it
                     names = _cls_of(cexpr, repo)
